@@ -27,13 +27,23 @@ def register(reg):
       "pick_table_valid, pick_list_valid); valid unused names are returned unchanged (pick_col_fixpoint, "
       "pick_table_fixpoint, pick_list_fixpoint). Differentially validated only: that the model equals the real "
       "functions (all pick_* and helper functions on Unicode-heavy random inputs plus all strings <=3/4 over a small "
-      "alphabet), and the property clauses re-evaluated on the real outputs with str.isidentifier/keyword.iskeyword.",
+      "alphabet), and the property clauses re-evaluated on the real outputs with str.isidentifier/keyword.iskeyword. "
+      "Judged by the direct oracle ONLY (not modelled in Lean): several names requested by one user action or bundle "
+      "through the real engine (BulkUpdateRecord on _grist_Tables tableId / raw-section titles / _grist_Tables_column "
+      "colId or label, bundles of RenameTable/AddTable/RenameColumn/AddColumn, AddTable with colliding columns, renames "
+      "next to summary tables, BulkAddRecord on the column metadata) with requests sanitising to equal or "
+      "case-insensitively equal ids: all ids valid, non-keyword, unique case-insensitively per scope, metadata = "
+      "Engine.tables/Engine.schema, data reachable, untouched ids unchanged, valid unused names kept, and the action not "
+      "rejected. The engine's bookkeeping of names picked earlier in the same action (avoid_tableid_set, avoid_colid_set, "
+      "_pick_col_name) is tied to the model only per requested name, the avoid set being rebuilt by the harness.",
       "Parameters (computed by the harness with the same stdlib calls, not modelled): NFKD normalisation + removal of "
       "combining characters, str.upper on the avoid set (idempotence re-validated over all code points every run), "
       "keyword.kwlist (regenerated into lean/Generated/Keywords.lean every run; proofs need only: no keyword ends "
       "in a digit or is all upper-case, re-proved by decide). 'Valid' = ASCII identifier shape; 'case-insensitive' "
       "= equality of str.upper forms (differs from casefold only for non-ASCII existing names such as U+212A). "
-      "Engine-level use (AddColumn/AddTable) exercised separately.",
+      "Engine level: 16 fixed witnesses + 9 (thorough 80) generated documents x ~8 multi-name actions per run, "
+      "requests str or None; a column name picked for another table in the same action counts as picked (counted); "
+      "one recorded finding (BulkAddRecord on _grist_Tables_column stores colIds verbatim, creates no column).",
       "Lean 4 theorems (induction + pigeonhole termination) + differential correspondence + direct oracle")
 
   reg("C35", "proof",
@@ -136,11 +146,22 @@ def register(reg):
       "of relabel steps) with relabeling.prepare_inserts on nextfloat chains, duplicates, +-inf, 0, negatives, 2^52/2^53 scale, "
       "subnormals and on multi-step histories; validOutcome (Lean) and an independent naive oracle (Python) judge every real "
       "outcome and corrupted outcomes. Totality is NOT proved: three classes of AssertionError on the unchanged tree are "
-      "recorded in known_findings.json.",
+      "recorded in known_findings.json. ENGINE LEVEL (direct oracle only, no theorem): rows are added AND REPOSITIONED through "
+      "user actions (AddRecord/BulkAddRecord/UpdateRecord/BulkUpdateRecord/ReplaceTableData/RemoveRecord/undo on manualSort, a "
+      "user PositionNumber column and _grist_Views_section_field.parentPos) in adaptively crowded neighbourhoods and in loaded "
+      "states of adjacent floats, so that relabeling adjusts OTHER existing rows while rows from anywhere in the order are moved; "
+      "after every action an oracle independent of relabeling.py and of the model checks: all positions finite and distinct, "
+      "untouched rows keep their relative order, every added/moved row sits where requested relative to the untouched rows, "
+      "subjects keep request order, unnamed columns / rejected actions / removals / undo leave positions as they must. The glue "
+      "PositionColumn.prepare_new_values + Engine.convert_action_values + doBulkUpdateRecord is NOT modelled in Lean; it is only "
+      "tied differentially (Lean prepareInserts at Float + a Python index-to-row glue must reproduce the table bit-for-bit). "
+      "Finding recorded from this level: a moved row whose computed position equals its old position is trimmed from the "
+      "update while its own adjustment is applied, so it is not moved.",
       "existing keys sorted, no NaN; full clauses when existing positions are finite and pairwise distinct (weaker set for "
       "legacy duplicates/zero/negatives, +-inf existing only differential); float < assumed a linear order on non-NaN values; "
       "get_range laws (length, monotone, start <= k < end), begin+count+1 >= begin validated on the real functions each run; "
-      "quick: ~7k cases + 9k checker evaluations; thorough: 16 worker processes.",
+      "quick: ~7k cases + 9k checker evaluations + ~3k engine actions in ~30 scenarios (4 fixed witnesses); thorough: 16 worker "
+      "processes. Engine scope: one user action per bundle, float/int/None requests, distinct row ids, <= ~160 rows.",
       "Lean 4 theorems over an abstract linear order + bit-for-bit differential of the Float instance + proved-sound checker on real outputs")
 
   reg("C32", "proof",
@@ -407,11 +428,22 @@ def register(reg):
       "and validation_full_false (keys equal only after type conversion are accepted). Differentially validated only: that the "
       "model equals the real code (error class + which check, retValues, every data cell, through a live engine incl. formula / "
       "unknown columns, chained cases with persistent lookup indexes) and an independent Python reference on exact values, "
-      "document-level frame (no other table, manualSort of old rows), rejected requests leave doc.snapshot() unchanged.",
+      "document-level frame (no other table, manualSort of old rows), rejected requests leave doc.snapshot() unchanged. "
+      "SEVERAL ACTIONS IN ONE BUNDLE (upsert - UpdateRecord/BulkUpdateRecord/AddRecord/RemoveRecord/upsert changing a require "
+      "cell or adding/removing a record - upsert looking up the changed key; 3-7 actions, incl. the formula column as key, a "
+      "brand-new document without lookup indexes, and bundles whose later action is invalid) are NOT in the Lean model (a "
+      "function of one request and one table: no bundle, no lookup index, no engine bookkeeping between doc actions): that "
+      "every upsert of a bundle sees the table as the previous actions left it, and that a bundle with a rejected action "
+      "changes nothing, is judged by the direct oracle only (retValues of every action, final table, other tables and the "
+      "error equal those of the same actions applied as separate bundles; each upsert of that chain is an ordinary "
+      "single-action case with reference and model tie, each plain action has a naive reference); the model's retValues per "
+      "upsert are additionally compared with the one-bundle retValues, on the table taken from the separate-bundle run.",
       "Parameters taken from the live column objects: col.convert of every request cell, column defaults, table.next_row_id(); "
       "lookup_records = exact scan in row-id order (C13/C05). Scalars None/bool/int/str; no 'id'/'manualSort' keys, no empty "
       "(formula-less) columns; option values boolean or absent; <=1 non-writable col_values column. Theorem hypotheses: next "
-      "above every row id, row ids distinct. Three recorded findings (known_findings.json).",
+      "above every row id, row ids distinct. Sequences of several actions in one bundle do not name the empty column. Recorded "
+      "findings in known_findings.json (incl. formula cells stale after a rejected multi-action bundle until the next "
+      "calculation = the C04 rollback finding seen through an upsert that looked up by the formula column).",
       "Lean 4 theorems (fold invariant accumulate-vs-immediate, per-row view of update sequences, trim harmless without repeated "
       "ids) + differential correspondence through a live engine + independent reference oracle")
 
